@@ -46,6 +46,42 @@ fn emulated(sig: i32, ctx: usize, e: &mut Emit) {
             let r = signal_hook::low_level::emulate_default_handler(sig);
             e.line(&format!("ret={}", match r { Ok(()) => "ok".to_string(), Err(er) => format!("err({})", er.raw_os_error().unwrap_or(-1)) }));
         }
+        5 | 6 => {
+            // "does nothing else": the signal is blocked with one instance pending, under the application's
+            // own handler (5) or the default disposition (6); afterwards the mask, the pending set and the
+            // disposition must be what they were and the handler must not have run
+            extern "C" fn mark(_: libc::c_int) {
+                MARK.store(1, std::sync::atomic::Ordering::SeqCst);
+            }
+            static MARK: std::sync::atomic::AtomicI32 = std::sync::atomic::AtomicI32::new(0);
+            unsafe {
+                let mut sa: libc::sigaction = std::mem::zeroed();
+                sa.sa_sigaction = if ctx == 5 { mark as usize } else { libc::SIG_DFL };
+                libc::sigaction(sig, &sa, std::ptr::null_mut());
+                let mut set: libc::sigset_t = std::mem::zeroed();
+                libc::sigemptyset(&mut set);
+                libc::sigaddset(&mut set, sig);
+                libc::sigprocmask(libc::SIG_BLOCK, &set, std::ptr::null_mut());
+                libc::raise(sig);
+            }
+            let before = unsafe {
+                let mut sa: libc::sigaction = std::mem::zeroed();
+                libc::sigaction(sig, std::ptr::null(), &mut sa);
+                (sa.sa_sigaction, sa.sa_flags)
+            };
+            let r = signal_hook::low_level::emulate_default_handler(sig);
+            let (masked, pending, after) = unsafe {
+                let mut cur: libc::sigset_t = std::mem::zeroed();
+                libc::sigprocmask(libc::SIG_BLOCK, std::ptr::null(), &mut cur);
+                let mut pend: libc::sigset_t = std::mem::zeroed();
+                libc::sigpending(&mut pend);
+                let mut sa: libc::sigaction = std::mem::zeroed();
+                libc::sigaction(sig, std::ptr::null(), &mut sa);
+                (libc::sigismember(&cur, sig) == 1, libc::sigismember(&pend, sig) == 1, (sa.sa_sigaction, sa.sa_flags))
+            };
+            let touched = [(!masked, "signal-mask"), (!pending, "pending-instance-consumed"), (before != after, "disposition"), (MARK.load(std::sync::atomic::Ordering::SeqCst) != 0, "handler-ran")].iter().filter(|x| x.0).map(|x| x.1).collect::<Vec<_>>().join("+");
+            e.line(&format!("ret={}{}", match r { Ok(()) => "ok".to_string(), Err(er) => format!("err({})", er.raw_os_error().unwrap_or(-1)) }, if touched.is_empty() { String::new() } else { format!(" CHANGED:{}", touched) }));
+        }
         3 | 4 => {
             // through flag::register_conditional_default with the condition true (3) / false (4)
             let cond = std::sync::Arc::new(std::sync::atomic::AtomicBool::new(ctx == 3));
@@ -123,6 +159,11 @@ pub fn run(_tier: Tier) -> BResult {
             }
             cells.push((s, c, true));
         }
+        // blocked with a pending instance: only where the library must do nothing at all
+        if s >= 1 && s <= 64 && s != 32 && s != 33 && signal_hook::low_level::signal_name(s).is_none() {
+            cells.push((s, 5, true));
+            cells.push((s, 6, true));
+        }
     }
     // The probes run inside a process group that is not orphaned: an intermediate child makes a
     // new group while its parent (this checker) stays in the old group of the same session.
@@ -166,7 +207,7 @@ pub fn run(_tier: Tier) -> BResult {
         }
     }
     let native_of = |s: i32| -> Option<String> { cells.iter().position(|c| c.0 == s && !c.2).map(|i| res[i].0.clone()) };
-    let ctxn = ["normal context", "inside the signal's own action (signal blocked)", "inside its own action after unblocking it", "a delivery with register_conditional_default armed (condition true)", "a delivery with register_conditional_default not armed (condition false)"];
+    let ctxn = ["normal context", "inside the signal's own action (signal blocked)", "inside its own action after unblocking it", "a delivery with register_conditional_default armed (condition true)", "a delivery with register_conditional_default not armed (condition false)", "normal context, signal blocked with one instance pending, application handler installed", "normal context, signal blocked with one instance pending, default disposition"];
     for (i, &(s, c, emu)) in cells.iter().enumerate() {
         if !emu {
             continue;
@@ -198,7 +239,9 @@ pub fn run(_tier: Tier) -> BResult {
                 if c >= 3 && ret == "ok" {
                     violations.push(BViolation { message: format!("C16: register_conditional_default({}) accepted a signal without a known default", s), case: case.clone() });
                 }
-                if class != "continues" || !ret.starts_with("err") {
+                if ret.contains("CHANGED") {
+                    violations.push(BViolation { message: format!("C16: emulate_default_handler({}) for a signal without a known name, {}: returned {} - it must return an error and do nothing else", s, ctxn[c], ret), case: case.clone() });
+                } else if class != "continues" || !ret.starts_with("err") {
                     if !(ret == "unregistrable") {
                         violations.push(BViolation { message: format!("C16: emulate_default_handler({}) for a signal without a known name: returned {} and the process {}", s, ret, class), case: case.clone() });
                     }
@@ -216,7 +259,7 @@ pub fn run(_tier: Tier) -> BResult {
         violations,
         exhaustive: true,
         caps: vec![],
-        rule: "complete grid: signal 1..64 + {0,-1,65,1000} x context {normal, inside own action blocked, inside own action unblocked}; each cell = an emulated child compared with a native child (SIG_DFL, unblock, raise) classified by waitpid(WUNTRACED) in a constructed non-orphaned process group; distinct = distinct (outcome class, return value, known?) tuples".into(),
+        rule: "complete grid: signal 1..64 + {0,-1,65,1000} x context {normal, inside own action blocked, inside own action unblocked, delivery under register_conditional_default with the condition true / false; for signals without a known name also: blocked with one instance pending under an application handler / the default disposition, comparing mask, pending set, disposition and handler runs before and after}; each cell = an emulated child compared with a native child (SIG_DFL, unblock, raise) classified by waitpid(WUNTRACED) in a constructed non-orphaned process group; distinct = distinct (outcome class, return value, known?) tuples".into(),
         assumptions: vec!["the kernel's default disposition is observed, not tabulated".into(), "core dumps disabled in probes (RLIMIT_CORE=0)".into(), "KILL/STOP only from normal context; signals 32/33 (libc-internal) have no native probe".into()],
     }
 }
